@@ -220,7 +220,10 @@ def analysable(e, lo=1e-140, hi=1e140, ratio=1e4, mode='json'):
             return False
     for n, (cov, grad) in e['cov'].items():
         m = float(np.max(np.abs(grad))) if grad.size else 0.0
+        c = float(np.max(np.abs(cov))) if cov.size else 0.0
         if m and not (lo < m < hi):
+            return False
+        if c and not (lo < c < hi and lo < m * np.sqrt(c) < hi):
             return False
     return True
 
@@ -275,9 +278,10 @@ def rand_idl(rng, n, kind):
     return [start + g * k for k in keep]
 
 
-def rand_layout(rng, support, nmin=5, nmax=30, allow_bare=True, ens_pool=None, idl_kinds=None, maxens=3):
+def rand_layout(rng, support, nmin=5, nmax=30, allow_bare=True, ens_pool=None, idl_kinds=None, maxens=3, rep_pool=None):
     """{ensemble: {chain name: configuration list}} for a support class."""
     ens_pool = ens_pool or ENS_POOL
+    rep_pool = rep_pool or REP_POOL
     idl_kinds = idl_kinds or ['contig', 'strided', 'gapped', 'irregular']
     if support == 'cov':
         return {}
@@ -291,11 +295,11 @@ def rand_layout(rng, support, nmin=5, nmax=30, allow_bare=True, ens_pool=None, i
     for e in rng.choice(ens_pool, size=nens, replace=False):
         e = str(e)
         if support == 'one':
-            reps = [None] if (allow_bare and rng.random() < 0.3) else [str(rng.choice(REP_POOL))]
+            reps = [None] if (allow_bare and rng.random() < 0.3) else [str(rng.choice(rep_pool))]
         elif support == 'replicas':
-            reps = sorted(str(r) for r in rng.choice(REP_POOL, size=int(rng.integers(2, 4)), replace=False))
+            reps = sorted(str(r) for r in rng.choice(rep_pool, size=int(rng.integers(2, 4)), replace=False))
         else:
-            reps = sorted(str(r) for r in rng.choice(REP_POOL, size=int(rng.integers(1, 4)), replace=False))
+            reps = sorted(str(r) for r in rng.choice(rep_pool, size=int(rng.integers(1, 4)), replace=False))
             if allow_bare and len(reps) == 1 and rng.random() < 0.15:
                 reps = [None]
         lay[e] = {}
@@ -333,8 +337,20 @@ def rand_samples(rng, n, kind):
     raise ValueError(kind)
 
 
+def strided_copy(rng, x):
+    """An array with the values of x that is not C-contiguous (stride-2 or negative-stride view)."""
+    x = np.asarray(x)
+    if rng.random() < 0.5:
+        big = np.empty(2 * len(x), dtype=x.dtype)
+        big[::2] = x
+        big[1::2] = -777
+        return big[::2]
+    return np.array(x[::-1])[::-1]
+
+
 def primary(pe, rng, chains, kind, table=None):
-    """Primary observable on the chains {name: idl} of one ensemble; input lists given as range / list / ndarray."""
+    """Primary observable on the chains {name: idl} of one ensemble.  The configuration lists are handed over as
+    range / list of int / list of numpy integers / int64 array / int32 array, the samples as arrays, strided views or lists."""
     names = sorted(chains)
     samples, idls = [], []
     for n in names:
@@ -342,10 +358,19 @@ def primary(pe, rng, chains, kind, table=None):
         x = rand_samples(rng, len(cfgs), kind)
         if table is not None:
             table[n] = {int(c): float(v) for c, v in zip(cfgs, x)}
+        u = rng.random()
+        if u < 0.2:
+            x = strided_copy(rng, x)
+        elif u < 0.3:
+            x = x.tolist()
         samples.append(x)
-        form = str(rng.choice(['list', 'ndarray', 'native']))
+        form = str(rng.choice(['list', 'ndarray', 'native', 'int32', 'npints']))
         if form == 'ndarray':
-            idls.append(np.array(cfgs))
+            idls.append(np.array(cfgs, dtype=np.int64))
+        elif form == 'int32':
+            idls.append(np.array(cfgs, dtype=np.int32))
+        elif form == 'npints':
+            idls.append([np.int64(c) if i % 2 else int(c) for i, c in enumerate(cfgs)])
         elif form == 'native' and len(cfgs) > 1 and all(b - a == cfgs[1] - cfgs[0] for a, b in zip(cfgs, cfgs[1:])):
             idls.append(range(cfgs[0], cfgs[-1] + 1, cfgs[1] - cfgs[0]))
         else:
@@ -353,23 +378,98 @@ def primary(pe, rng, chains, kind, table=None):
     return pe.Obs(samples, names, idl=idls)
 
 
-def rand_covobs(pe, rng, count=None, dims=None):
-    """1-2 covariance inputs of dimension 1-3: [(name, [Obs per component])]."""
+def twin_idl(rng, cfgs):
+    """Another configuration list with the same first number and the same length (and, when there is room inside,
+    the same last number) but a different interior: everything a cheap signature of the list looks at agrees."""
+    cf = sorted(int(c) for c in cfgs)
+    n = len(cf)
+    free = sorted(set(range(cf[0] + 1, cf[-1])) - set(cf))
+    if free and n > 3:
+        new = list(cf)
+        for _ in range(int(rng.integers(1, 4))):
+            new[int(rng.integers(1, n - 1))] = int(rng.choice(free))
+        new = sorted(set(new))
+        while len(new) < n:
+            cand = [x for x in range(cf[0] + 1, cf[-1]) if x not in new]
+            new = sorted(new + [int(rng.choice(cand))])
+        if new != cf:
+            return new
+    # contiguous list (no room inside): stretch it, keeping first number and length
+    inner = sorted(int(x) for x in rng.choice(np.arange(cf[0] + 1, cf[0] + 3 * n), size=n - 2, replace=False))
+    return [cf[0]] + inner + [cf[0] + 3 * n]
+
+
+def twin_layout(rng, layout):
+    """Same ensembles, chain names, first configuration and length per chain; different interior."""
+    return {e: {c: twin_idl(rng, cf) for c, cf in chains.items()} for e, chains in layout.items()}
+
+
+def obs_arrays(o):
+    """The numpy arrays an observable owns (fluctuations, covariance matrices, gradients)."""
+    out = [o.deltas[n] for n in o.deltas]
+    for c in o.covobs.values():
+        out += [c.cov, c.grad]
+    return [a for a in out if isinstance(a, np.ndarray) and a.size]
+
+
+def _byte_bounds(a):
+    f = getattr(np, 'byte_bounds', None) or np.lib.array_utils.byte_bounds
+    return f(a)
+
+
+def sharing(objs_a, objs_b=None):
+    """Pairs (i, j) of distinct observables whose arrays overlap in memory (objs_b None: within objs_a, i < j)."""
+    spans = []
+    for side, objs in ((0, objs_a), (1, objs_b or [])):
+        for i, o in enumerate(objs):
+            for arr in obs_arrays(o):
+                lo, hi = _byte_bounds(arr)
+                spans.append((lo, hi, side, i, arr))
+    spans.sort(key=lambda t: t[0])
+    out = set()
+    active = []
+    for lo, hi, side, i, arr in spans:
+        active = [t for t in active if t[1] > lo]
+        for (lo2, hi2, side2, i2, arr2) in active:
+            if objs_b is None:
+                if objs_a[i] is objs_a[i2]:
+                    continue
+                pair = tuple(sorted((i, i2)))
+            else:
+                if side == side2:
+                    continue
+                pair = (i, i2) if side == 0 else (i2, i)
+            if pair not in out and np.shares_memory(arr, arr2):
+                out.add(pair)
+        active.append((lo, hi, side, i, arr))
+    return sorted(out)
+
+
+def rand_covobs(pe, rng, count=None, dims=None, extreme=False):
+    """1-2 covariance inputs of dimension 1-3: [(name, [Obs per component], scale)].  The matrix is handed over as scalar /
+    1-d variances / 2-d matrix, as list or ndarray; extreme: matrix entries scaled by s**2 with s = 1e-120..1e120 and tiny
+    means, so that arbitrary gradients can be attached without drowning the Monte-Carlo part of the central value."""
     out = []
     names = ['cvA', 'cv', '#renorm']
     count = int(rng.integers(1, 3)) if count is None else count
     for name in rng.choice(names, size=count, replace=False):
         dim = int(rng.integers(1, 4)) if dims is None else int(rng.choice(dims))
-        means = rng.normal(size=dim) + 2.0
-        if dim == 1:
-            cv = [pe.cov_Obs(float(means[0]), float(rng.uniform(0.01, 0.3)) ** 2, str(name))]
+        sc = float(10.0 ** rng.uniform(-120, 120)) if extreme else 1.0
+        means = (rng.normal(size=dim) + 2.0) * (1e-75 if extreme else 1.0)
+        as_array = bool(rng.integers(0, 2))
+        if dim == 1 and rng.random() < 0.5:
+            cv = pe.cov_Obs(float(means[0]) if rng.random() < 0.7 else np.float64(means[0]), (float(rng.uniform(0.01, 0.3)) * sc) ** 2, str(name))
         elif rng.random() < 0.3:
-            cv = pe.cov_Obs(means.tolist(), (rng.uniform(0.01, 0.3, size=dim) ** 2).tolist(), str(name))
+            var = (rng.uniform(0.01, 0.3, size=dim) * sc) ** 2
+            cv = pe.cov_Obs(means if as_array else means.tolist(), var if as_array else var.tolist(), str(name))
         else:
             a = rng.normal(size=(dim, dim))
             m = a @ a.T / dim + 0.05 * np.eye(dim)
-            cv = pe.cov_Obs(means.tolist(), ((m + m.T) / 2).tolist(), str(name))
-        out.append((str(name), list(cv)))
+            m = (m + m.T) / 2 * sc * sc
+            if as_array and rng.random() < 0.5:
+                m = np.asfortranarray(m)
+            cv = pe.cov_Obs(means if as_array else means.tolist(), m if as_array else m.tolist(), str(name))
+        out.append((str(name), [cv] if is_obs(cv) else list(cv), sc))
     return out
 
 
@@ -377,13 +477,19 @@ class Family:
     """Members that share one layout (names, configuration lists, covariance names), as the
     List / Array / Corr structures require."""
 
-    def __init__(self, pe, rng, support, nmin=5, nmax=30, allow_bare=True, kinds=None, mags='any', maxens=3, layout=None, dims=None):
+    def __init__(self, pe, rng, support, nmin=5, nmax=30, allow_bare=True, kinds=None, mags='any', maxens=3, layout=None, dims=None,
+                 ens_pool=None, cov_extreme=None, cvs=None):
         self.pe = pe
         self.rng = rng
         self.support = support
-        self.layout = rand_layout(rng, support, nmin, nmax, allow_bare, maxens=maxens) if layout is None else layout
+        self.layout = rand_layout(rng, support, nmin, nmax, allow_bare, maxens=maxens, ens_pool=ens_pool) if layout is None else layout
         self.kinds = kinds or ['white', 'white', 'ar', 'counts', 'distinct', 'const']
-        self.cvs = rand_covobs(pe, rng, dims=dims) if support in ('cov', 'mixed') else []
+        self.cov_extreme = bool(rng.random() < 0.25) if cov_extreme is None else cov_extreme
+        if cvs is not None:
+            self.cvs = cvs
+        else:
+            self.cvs = rand_covobs(pe, rng, dims=dims, extreme=self.cov_extreme) if support in ('cov', 'mixed') else []
+        self.cov_extreme = self.cov_extreme and bool(self.cvs)
         self.mags = mags
 
     def magnitude(self):
@@ -401,6 +507,7 @@ class Family:
         pe, rng = self.pe, self.rng
         o = None
         ens = sorted(self.layout)
+        linear_only = linear_only or self.cov_extreme
         if ens:
             prims = []
             for e in ens:
@@ -423,7 +530,12 @@ class Family:
                     o = o * primary(pe, rng, self.layout[ens[0]], 'white')
             else:
                 o = np.sin(prims[0]) + sum(np.exp(0.05 * p) for p in prims)
-        for name, comps in self.cvs:
+        for name, comps, sc in self.cvs:
+            if self.cov_extreme:
+                # tiny / huge gradients next to tiny / huge matrix entries
+                lin = sum(float(10.0 ** rng.uniform(-70, 70)) * float(rng.choice([-1, 1])) * c for c in comps)
+                o = lin if o is None else o + lin
+                continue
             lin = sum(float(rng.uniform(0.3, 2.0)) * float(rng.choice([-1, 1])) * c for c in comps)
             if o is None:
                 o = lin if rng.random() < 0.5 else lin * comps[0]
@@ -434,4 +546,8 @@ class Family:
         mag = self.magnitude() if mag is None else mag
         if mag != 1.0:
             o = o * mag
+        if rng.random() < 0.15:
+            # fluctuation arrays that are views (not C-contiguous), same numbers
+            for n in list(o.deltas):
+                o.deltas[n] = strided_copy(rng, o.deltas[n])
         return o
